@@ -551,3 +551,154 @@ def history_jobs(tier, props, module):
                         }
                     )
     return out
+
+
+# ---------------------------------------------------------------------------------------------------
+# program-level clauses: bounded symbolic programs with a data cache in both pipeline modes
+# ---------------------------------------------------------------------------------------------------
+
+DCFG = [("wb", "lru", 0, 0, 1), ("wt", "lru", 1, 0, 2), ("wb", "plru", 0, 1, 2), ("wt", "plru", 0, 0, 2)]
+MEM_OPS = {"lw", "lb", "sw", "sb", "lh", "lhu", "lbu", "sh"}
+
+
+def h_prog_dcache(e, mnems, cfg, props):
+    """uncached single-cycle run vs cached single-cycle and cached five-stage runs of the same
+    symbolic program: C03 results identical; C09 counters identical in both modes, one access per
+    executed load/store, every step advances the cycle counter by 1 + penalty x misses"""
+    from checks import progs
+    from checks.c02 import compare_final
+    from symx.state import mk_riscv, place_instructions, cache_options
+    from architecture_simulator.simulation.runtime_errors import InstructionExecutionException
+
+    kind, repl, ib, bb, ways = cfg
+    K = progs.k_for(len(mnems))
+    penalty = e.int("penalty", 0, 1000)
+    items, fields = progs.build_program(e, mnems)
+    dc = cache_options(True, ib, bb, ways, kind, repl, 0)
+    c5 = mk_riscv(e, mode="five_stage_pipeline", dcache=dc)
+    c1 = mk_riscv(e, mode="single_stage_pipeline", dcache=dc)
+    c0 = mk_riscv(e, mode="single_stage_pipeline")
+    for c in (c1, c5):
+        c.sim.state.memory.miss_penality = penalty
+    for c in (c0, c1, c5):
+        place_instructions(e, c, items)
+    mnem_of = {id(ins): m for (a, ins), m in zip(items, mnems)}
+    pm5, m5 = c5.sim.state.performance_metrics, c5.sim.state.memory
+    st5 = {"cycles": 0, "acc": 0, "hits": 0}
+    cyc_checks = []
+
+    def on5(sim, r):
+        d_acc, d_hit = m5.accesses - st5["acc"], m5.hits - st5["hits"]
+        cyc_checks.append((pm5.cycles, st5["cycles"] + 1 + penalty * (d_acc - d_hit)))
+        st5.update(cycles=pm5.cycles, acc=m5.accesses, hits=m5.hits)
+
+    s5 = progs.run_five(e, c5, progs.cycle_bound(K), on_step=on5, K=K)
+    memops1 = []
+
+    def on1(sim, r):
+        pr = sim.state.pipeline.pipeline_registers[0]
+        if mnem_of.get(id(pr.instruction)) in MEM_OPS:
+            memops1.append(1)
+
+    s1 = progs.run_single(e, c1, K, on_step=on1)
+    s0 = progs.run_single(e, c0, K)
+    unaligned = any(f is not None and "ByteOffsetError" in f.error_message for f in (s1.fault, s5.fault))
+    e.observe("unaligned", unaligned)
+    if unaligned:
+        return "unaligned access: rejected by the cache, outside the program clause"
+    if "C03" in props:
+        compare_final(e, s0, s5)
+        q = e.int("q1", 0, 31)
+        e.claim_eq("C03:single-cycle-cached==uncached:registers", c1.reg(q), c0.reg(q))
+        e.claim_eq("C03:single-cycle-cached==uncached:output", c1.sim.state.output, c0.sim.state.output)
+        e.claim_eq("C03:single-cycle-cached==uncached:exit", c1.sim.state.exit_code, c0.sim.state.exit_code)
+        e.claim("C03:single-cycle-cached==uncached:fault", (s1.fault is None) == (s0.fault is None))
+    if "C09" in props and s1.fault is None and s5.fault is None and not s5.nonterminating:
+        m1 = c1.sim.state.memory
+        e.claim("C09:one-access-per-executed-load-or-store", m1.accesses == len(memops1), {"accesses": m1.accesses, "memory_instructions": len(memops1)})
+        e.claim("C09:same-accesses-in-both-modes", m5.accesses == m1.accesses, {"five": m5.accesses, "single": m1.accesses})
+        e.claim("C09:same-hits-in-both-modes", m5.hits == m1.hits, {"five": m5.hits, "single": m1.hits})
+        e.claim("C09:same-last-hit-flag", bool(m5.last_was_hit) == bool(m1.last_was_hit))
+        for i, (got, want) in enumerate(cyc_checks):
+            e.claim_eq("C09:cycle-advances-by-1-plus-penalties-step%d" % i, got, want)
+        pm1 = c1.sim.state.performance_metrics
+        e.claim_eq("C09:single-cycle-cycles", pm1.cycles, len(s1.retired) + penalty * (m1.accesses - m1.hits))
+        e.claim("canary:C09:prog", m1.accesses == len(memops1) + 1)
+    if "C03" in props:
+        e.claim("canary:C03:prog", cond("==", c1.reg(e.int("q2", 0, 31)), -1))
+
+
+def prog_jobs(tier, seed, props, module):
+    from checks import c02
+    from checks.progs import ALPHABET, skeletons
+
+    out = []
+    common = {"timeout_ms": 10000, "cut_on_undecided": True, "module": module, "harness": "prog"}
+    i = 0
+    memset = {"lw", "lb", "sw", "sb"}
+    for L in (1, 2):
+        for sk in skeletons(ALPHABET, L):
+            if not (set(sk) & memset):
+                continue
+            i += 1
+            if L == 2 and (c02.heavy(sk, strict=True) or (tier == "quick" and (i + seed) % 4 != 0)):
+                continue
+            cfg = DCFG[i % len(DCFG)]
+            out.append(dict(common, label="prog-%s-%s" % (",".join(sk), "".join(map(str, cfg))), args={"mnems": sk, "cfg": list(cfg), "props": sorted(props)}, cost=15 * L, validate_every=3))
+    for sk in (["sw", "lw", "lw"], ["sb", "lw", "beq"], ["lw", "sw", "jal"], ["sw", "sw", "lb"]):
+        for cfg in DCFG[:2] if tier == "quick" else DCFG:
+            out.append(dict(common, label="prog-%s-%s" % (",".join(sk), "".join(map(str, cfg))), args={"mnems": sk, "cfg": list(cfg), "props": sorted(props)}, cost=60, validate_every=5, optional=True))
+    return out
+
+
+# ---------------------------------------------------------------------------------------------------
+# configuration plumbing: every cache gets exactly its own configured geometry, policy and penalty
+# ---------------------------------------------------------------------------------------------------
+
+
+def h_config(e, mode, d, i):
+    """d, i: (enable, index_bits, block_bits, ways, kind, repl, penalty) for data / instruction cache"""
+    from architecture_simulator.simulation.riscv_simulation import RiscvSimulation
+    from symx.state import cache_options
+
+    sim = RiscvSimulation(mode=mode, data_cache=cache_options(*d), instruction_cache=cache_options(*i))
+    st = sim.state
+
+    def describe(cs):
+        if not hasattr(cs, "cache"):
+            return None
+        rs = cs.cache.sets[0].replacement_strategy
+        return {
+            "class": type(cs).__name__,
+            "sets": len(cs.cache.sets),
+            "words": cs.cache.num_words_in_block,
+            "ways": len(cs.cache.sets[0].blocks),
+            "policy": type(rs).__name__,
+            "penalty": cs.miss_penality,
+            "shares_metrics": cs.performance_metrics is st.performance_metrics,
+        }
+
+    def want(o, is_data):
+        en, ib, bb, ways, kind, repl, pen = o
+        if not en:
+            return None
+        cls = ("WriteThroughMemorySystem" if kind == "wt" else "WriteBackMemorySystem") if is_data else "InstructionMemoryCacheSystem"
+        return {"class": cls, "sets": 1 << ib, "words": 1 << bb, "ways": ways, "policy": "LRU" if repl == "lru" else "PLRU", "penalty": pen, "shares_metrics": True}
+
+    gd, gi = describe(st.memory), describe(st.instruction_memory)
+    e.observe("data", gd)
+    e.observe("instr", gi)
+    e.claim("data-cache-as-configured", gd == want(d, True), {"got": gd, "want": want(d, True)})
+    e.claim("instruction-cache-as-configured", gi == want(i, False), {"got": gi, "want": want(i, False)})
+    e.claim("canary:config", gd == {"x": 1})
+
+
+def config_jobs(module):
+    import itertools
+
+    out = []
+    opts = [(False, 0, 0, 1, "wb", "lru", 0), (True, 1, 0, 4, "wb", "lru", 3), (True, 0, 1, 4, "wt", "plru", 5), (True, 2, 2, 2, "wb", "plru", 7), (True, 0, 0, 3, "wt", "lru", 1)]
+    for k, (d, i) in enumerate(itertools.product(opts, opts)):
+        mode = ["single_stage_pipeline", "five_stage_pipeline"][k % 2]
+        out.append({"label": "config-%d" % k, "module": module, "harness": "config", "args": {"mode": mode, "d": list(d), "i": list(i)}, "cost": 1, "validate": False})
+    return out
